@@ -283,7 +283,7 @@ fn gen_tileset(rng: &mut Rng) -> Vec<C> {
 // ---------------------------------------------------------------------------------------------
 /// tile set made of Hilbert runs (consecutive PMTiles ids with one payload each), incl. runs that
 /// cross a zoom boundary, plus a few single tiles; returns (tile map, runs as (id, length))
-fn gen_runs(rng: &mut Rng) -> (ind::TileMap, Vec<(u64, u64)>) {
+pub fn gen_runs(rng: &mut Rng) -> (ind::TileMap, Vec<(u64, u64)>) {
 	let mut tiles = ind::TileMap::new();
 	let mut ids: BTreeMap<u64, u64> = BTreeMap::new(); // id -> payload no
 	let nruns = rng.range(1, 4);
